@@ -54,6 +54,8 @@ def _fixture_c():
         E[bn + ".src"] = src = blk.create_source("src", "t")
         E[bn + ".src.child"] = src.create_source("child", "t")
         E[bn + ".src2"] = blk.create_source("child2", "t")
+        E[bn + ".fr"] = blk.create_data_frame("fr", "t", col_names=["c", "d"], col_dtypes=[int, float],
+                                               data=[(1, 0.5), (2, 1.5)])
     E["b2.src.deep"] = E["b2.src.child"].create_source("src2", "t")
     E["sec"] = f.create_section("sec", "t")
     return E
@@ -111,26 +113,45 @@ def _ob_accept(ii: int, jj: int) -> bool:
     return True
 
 
-def _ob_feature_data(ii: int) -> bool:
+FITEMS = ITEMS + ["b1.fr", "b2.fr"]
+
+
+def _ob_feature_data(ii: int, lt: int, first: int) -> bool:
     """
-    pre: 0 <= ii < 15
+    pre: 0 <= ii < 17 and 0 <= lt < 3 and 0 <= first < 2
     post: __return__
     """
     import nixio
     E = _fixture()
     tag = E["b1.tag"]
-    feat = tag.create_feature(E["b1.vec"], nixio.LinkType.Untagged)
-    key = _pick(ITEMS, ii)
+    ltype = _pick([nixio.LinkType.Untagged, nixio.LinkType.Tagged, nixio.LinkType.Indexed], lt)
+    # the feature starts out on an array or (where the link type allows it) on a data frame
+    start = E["b1.vec"] if (first == 0 or lt == 1) else E["b1.fr"]
+    feat = tag.create_feature(start, ltype)
+    key = _pick(FITEMS, ii)
     item = E[key]
-    ok = isinstance(item, nixio.DataArray) and key.startswith("b1.")
+    is_da, is_fr = isinstance(item, nixio.DataArray), isinstance(item, nixio.DataFrame)
+    ok = key.startswith("b1.") and (is_da or (is_fr and lt != 1))
     try:
         feat.data = item
         accepted = True
-    except (RuntimeError, TypeError):
+    except Exception:  # noqa  any refusal
         accepted = False
     if accepted != ok:
         return False
-    return feat.data.id == (item.id if ok else E["b1.vec"].id)
+    want = item if ok else start
+    # the entity reached through the feature IS the linked one: same id, same kind, same content -
+    # through this handle and through a new one
+    for ft in (feat, tag.features[0]):
+        d = ft.data
+        if d.id != want.id or type(d) is not type(want) or d.name != want.name:
+            return False
+        if isinstance(want, nixio.DataArray):
+            if list(d.shape) != list(want.shape):
+                return False
+        elif tuple(d.column_names) != tuple(want.column_names):
+            return False
+    return True
 
 
 # ---------------------------------------------------------------------------
